@@ -43,6 +43,9 @@ pub enum Ev {
     /// raw undecodable bytes
     Garbage { unauth: bool, len: u8, seed: u8 },
     ConnEvent { which: u8 },
+    /// a new connection on which a complete, validly signed handshake is carried out under the
+    /// hostile peer's own key (which is already connected on another connection) or a fresh key
+    NewConnection { key_sel: u8 },
     // ---- honest ----
     HonestTx { payer: u8, fee: u64 },
     /// the honest peer announces and serves the next valid block
@@ -288,6 +291,34 @@ pub fn run_case(case: &Case, prefix: &Built) -> (Vec<(String, String)>, Info) {
                 call!(n, format!("step {step}"), via, true, n.net_event(e));
                 n.take_outbox();
             }
+            Ev::NewConnection { key_sel } => {
+                info.hostile_events += 1;
+                let same = key_sel % 2 == 0;
+                let via = format!("new_connection:{}", if same { "same_key_as_connected_peer" } else { "fresh_key" });
+                let idx = 60 + step as u64;
+                n.take_outbox();
+                call!(n, format!("step {step}"), via, true, n.net_event(NetworkEvent::PeerConnectionResult { result: Ok((idx, None)) }));
+                let challenge = n.take_outbox().into_iter().filter(|(i, _)| *i == idx).find_map(|(_, b)| match Message::deserialize(b) {
+                    Ok(Message::HandshakeChallenge(c)) => Some(c.challenge),
+                    _ => None,
+                });
+                if let Some(ch) = challenge {
+                    let k = if same { key(5) } else { key(9) };
+                    let r = saito_core::core::msg::handshake::HandshakeResponse {
+                        public_key: k.0,
+                        signature: saito_core::core::util::crypto::sign(&ch, &k.1),
+                        is_lite: false,
+                        block_fetch_url: "http://hostile2/".into(),
+                        challenge: [6; 32],
+                        services: vec![],
+                        wallet_version: saito_core::core::process::version::Version::new(1, 2, 3),
+                        core_version: saito_core::core::process::version::Version::new(1, 2, 3),
+                    };
+                    call!(n, format!("step {step}"), via, true, n.net_event(NetworkEvent::IncomingNetworkMessage { peer_index: idx, buffer: Message::HandshakeResponse(r).serialize() }));
+                    pump_all!(n, via, true);
+                }
+                n.take_outbox();
+            }
             Ev::HonestTx { payer, fee } => {
                 info.honest_events += 1;
                 let (tip_id, _) = n.tip();
@@ -490,6 +521,7 @@ pub fn arb_ev() -> impl Strategy<Value = Ev> {
         2 => any::<u8>().prop_map(|edit| Ev::HostileTx { edit }),
         1 => (any::<bool>(), any::<u8>(), any::<u8>()).prop_map(|(unauth, len, seed)| Ev::Garbage { unauth, len, seed }),
         1 => any::<u8>().prop_map(|which| Ev::ConnEvent { which }),
+        1 => any::<u8>().prop_map(|key_sel| Ev::NewConnection { key_sel }),
         3 => (0u8..3, prop_oneof![Just(0u64), 1u64..5000]).prop_map(|(payer, fee)| Ev::HonestTx { payer, fee }),
         3 => any::<bool>().prop_map(|with_txs| Ev::HonestBlock { with_txs }),
         2 => any::<u16>().prop_map(|ms| Ev::Tick { ms }),
